@@ -524,7 +524,56 @@ def r_cursor(ctx, view):
             need = {c["cursor"] for c in info.values() if c["cursor"]}
             ok, why = len_is_remaining(lt, fronts["cursor"] if fronts else None, backs["cursor"] if backs else None)
             ctx.ob("R-CURSOR", T + ":c4:len-is-remaining", ok, ln.loc(), why + " (len = %s)" % term_str(lt))
+            if fronts and not backs:
+                # a single front cursor counted against a bound (`len() - pos`): exact, and free of underflow, only if the cursor
+                # stops at the bound - it may move only where an element is known to exist (not on the call that answers None)
+                sat = any(x[0] == "call" and x[1].endswith("saturating_sub") for x in walk(lt))
+                okm, whym = cursor_moves_only_when_yielding(view, ms["next"], fronts["cursor"])
+                ctx.ob("R-CURSOR", T + ":c4:cursor-stops-at-the-bound", okm or sat, ms["next"].loc(), whym if not sat else "saturating count")
     return by_type
+
+
+def cursor_moves_only_when_yielding(view, m, cursor):
+    """every write of the cursor field in stepping method m is dominated by an edge on which an element is known to exist:
+    the Some edge of (a chain on) the slot lookup, or the true side of `cursor < bound`.  -> (ok, why)"""
+    from .core import edge_presence
+    vp = view.vp
+    f = m
+    wblocks = set()
+    for bi in sorted(f.cfg.reach):
+        for s2 in f.blocks[bi]["stmts"]:
+            if s2["k"] == "assign" and s2["place"]["proj"] and self_field(vp.place(f, s2["place"])) == cursor:
+                wblocks.add(bi)
+    if not wblocks:
+        return True, "the cursor is not written"
+    roots = set()
+    for bi in sorted(f.cfg.reach):
+        t = f.term(bi)
+        if t["k"] != "switch":
+            continue
+        d = strip(vp.operand(f, t["discr"]))
+        if d[0] == "discr" and any(x[0] == "call" and x[1].split("::")[-1] in ("get_index_mut2", "get_index_mut", "get_index", "get_mut", "get") for x in walk(d)):
+            for nb in f.cfg.succ[bi]:
+                if edge_presence(d, t, nb) == "present":
+                    roots.add((bi, nb))
+        if d[0] == "binop" and d[1] in ("Lt", "Gt", "Le", "Ge"):
+            a, b = strip(d[2]), strip(d[3])
+            op = d[1]
+            if op in ("Gt", "Ge"):
+                a, b, op = b, a, {"Gt": "Lt", "Ge": "Le"}[op]
+            zero = [tb for v, tb in t["targets"] if v == 0]
+            if op == "Lt" and self_field_loose(a) == cursor:
+                roots.add((bi, t["otherwise"]))          # cursor < bound holds
+            if op == "Le" and self_field_loose(b) == cursor and zero:
+                roots.add((bi, zero[0]))                 # !(bound <= cursor)
+    good = set()
+    for (bi, nb) in roots:
+        if len(f.cfg.pred[nb]) == 1:
+            good.add(nb)
+    bad = [w for w in wblocks if not any(g == w or f.cfg.dominates(g, w) for g in good)]
+    if bad:
+        return False, "the cursor `%s` is also moved on a path on which no element is known to exist (block %s): after the end it runs past the bound" % (cursor, bad[0])
+    return True, "the cursor moves only where an element is known to exist"
 
 
 def len_is_remaining(lt, front, back):
